@@ -371,8 +371,9 @@ impl Responder {
     ///
     /// Returns a vector of rejected trackers during rebroadcast if any were rejected, [None] otherwise.
     fn rebroadcast_stale_txs(&self, height: u32) -> Option<Vec<UUID>> {
-        let dbm = self.dbm.lock().unwrap();
+        // Lock order: carrier before the database, as in `handle_reorged_txs` and `handle_breach`.
         let mut carrier = self.carrier.lock().unwrap();
+        let dbm = self.dbm.lock().unwrap();
         let mut rejected = Vec::new();
 
         // Retry sending trackers which have been in the mempool since more than `CONFIRMATIONS_BEFORE_RETRY` blocks.
